@@ -29,6 +29,8 @@ var sums3 = map[string][]string{
 		"*github.com/gcash/bchutil.AddressScriptHash32", "*github.com/gcash/bchutil.LegacyAddressPubKeyHash",
 		"*github.com/gcash/bchutil.LegacyAddressScriptHash", "*github.com/gcash/bchutil.AddressPubKey"},
 	"github.com/gcash/bchutil/coinset.Coins": {"*github.com/gcash/bchutil/coinset.CoinSet"},
+	// the self-test (cmd/gotrans/selftest/kernels3.go)
+	"github.com/gcash/bchutil/selftest.Shape": {"*github.com/gcash/bchutil/selftest.Circle", "*github.com/gcash/bchutil/selftest.Rect"},
 }
 
 // functions of the translated packages that stay abstract (Section variables), keyed pkgdir:Recv.Func
@@ -165,7 +167,7 @@ func (c *m3) coqT(t mtype) string {
 	case mOpt:
 		return "option " + paren(c.coqT(*t.elem))
 	case mMap:
-		return fmt.Sprintf("list (%s * %s)", c.coqT(*t.key), c.coqT(*t.elem))
+		return fmt.Sprintf("option (list (%s * %s))", c.coqT(*t.key), c.coqT(*t.elem))
 	}
 	return "?"
 }
@@ -184,7 +186,7 @@ func (c *m3) zeroT(t mtype, at ast.Node) string {
 		}
 		return fmt.Sprintf("(@nil %s)", paren(c.coqT(*t.elem)))
 	case mMap:
-		return fmt.Sprintf("(@nil (%s * %s))", c.coqT(*t.key), c.coqT(*t.elem))
+		return fmt.Sprintf("(@None (list (%s * %s)))", c.coqT(*t.key), c.coqT(*t.elem))
 	case mOpt:
 		return fmt.Sprintf("(@None %s)", paren(c.coqT(*t.elem)))
 	case mUnit:
@@ -211,12 +213,15 @@ func (c *m3) needVar(name, coq string, at ast.Node) {
 	c.usedVars[name] = true
 }
 
+// the package being translated: its own types are never abstract (another package's stub may declare them so)
+var curPkg3 *types.Package
+
 func abstractName3(t types.Type) string {
 	if p, ok := t.(*types.Pointer); ok {
 		t = p.Elem()
 	}
 	if n, ok := t.(*types.Named); ok && n.Obj().Pkg() != nil {
-		if abstract3[qualName(n)] {
+		if abstract3[qualName(n)] && n.Obj().Pkg() != curPkg3 {
 			return n.Obj().Name()
 		}
 		if i, isI := n.Underlying().(*types.Interface); isI && i.NumMethods() > 0 && sums3[qualName(n)] == nil {
@@ -444,6 +449,7 @@ func (g *g3) computeMut(specs []k3spec, decls map[string]*ast.FuncDecl, pk map[s
 				continue
 			}
 			p := pk[k.pkg]
+			curPkg3 = p.tpkg
 			var recvObj types.Object
 			if fd.Recv != nil && len(fd.Recv.List[0].Names) == 1 {
 				recvObj = p.info.Defs[fd.Recv.List[0].Names[0]]
@@ -458,6 +464,7 @@ func (g *g3) computeMut(specs []k3spec, decls map[string]*ast.FuncDecl, pk map[s
 			}
 			mark := func(e ast.Expr) {
 				through := false
+				viaIndex := false
 				for {
 					switch x := e.(type) {
 					case *ast.ParenExpr:
@@ -468,9 +475,10 @@ func (g *g3) computeMut(specs []k3spec, decls map[string]*ast.FuncDecl, pk map[s
 						through = true
 						continue
 					case *ast.IndexExpr:
-						// writing an element of a slice field is a write through the struct; of a slice variable it is
-						// an effect on the caller's array (rejected elsewhere)
+						// writing an element of a slice field is a write through the struct; of a slice parameter it is
+						// an effect on the caller's array: the new slice is returned
 						e = x.X
+						viaIndex = true
 						continue
 					case *ast.StarExpr:
 						e = x.X
@@ -480,11 +488,21 @@ func (g *g3) computeMut(specs []k3spec, decls map[string]*ast.FuncDecl, pk map[s
 					break
 				}
 				id, ok := e.(*ast.Ident)
-				if !ok || !through {
+				if !ok {
 					return
 				}
 				o := p.info.Uses[id]
 				if o == nil {
+					return
+				}
+				if _, isSlice := o.Type().Underlying().(*types.Slice); isSlice && viaIndex && !through {
+					if j, ok := parIdx[o]; ok && !mi.par[j] {
+						mi.par[j] = true
+						changed = true
+					}
+					return
+				}
+				if !through {
 					return
 				}
 				if _, isPtr := o.Type().Underlying().(*types.Pointer); !isPtr {
@@ -508,6 +526,39 @@ func (g *g3) computeMut(specs []k3spec, decls map[string]*ast.FuncDecl, pk map[s
 				case *ast.IncDecStmt:
 					mark(n.X)
 				case *ast.CallExpr:
+					// copy(p.f[a:], ..), binary.X.PutUint32(p.f[a:], ..) write p.f
+					isWrite := false
+					if id, ok := n.Fun.(*ast.Ident); ok && id.Name == "copy" {
+						isWrite = true
+					}
+					if sel, ok := n.Fun.(*ast.SelectorExpr); ok && sel.Sel.Name == "PutUint32" {
+						isWrite = true
+					}
+					if isWrite && len(n.Args) > 0 {
+						d := n.Args[0]
+						if se, ok := d.(*ast.SliceExpr); ok {
+							d = se.X
+						}
+						mark(d)
+					}
+					// sort.Sort(T(p.f)) writes p.f
+					if sel, ok := n.Fun.(*ast.SelectorExpr); ok && sel.Sel.Name == "Sort" && len(n.Args) == 1 {
+						if pid, ok := sel.X.(*ast.Ident); ok && pid.Name == "sort" {
+							a := n.Args[0]
+							for {
+								if pe, ok := a.(*ast.ParenExpr); ok {
+									a = pe.X
+									continue
+								}
+								if ce, ok := a.(*ast.CallExpr); ok && len(ce.Args) == 1 {
+									a = ce.Args[0]
+									continue
+								}
+								break
+							}
+							mark(a)
+						}
+					}
 					// a mutating method of an abstract object held in a field; a listed method that writes its receiver
 					if sel, ok := n.Fun.(*ast.SelectorExpr); ok {
 						if tv, ok := p.info.Types[sel.X]; ok && tv.Type != nil && !tv.IsType() {
@@ -575,6 +626,7 @@ func (c *m3) translate3() (out string, err error) {
 	if fn.Type.TypeParams != nil {
 		c.fail(fn, "generic function")
 	}
+	curPkg3 = c.p.tpkg
 	c.sig = &fsig3{name: c.spec.name, key: k3key(c.spec)}
 	c.usedVars = map[string]bool{}
 	c.desugar(fn.Body)
@@ -1007,6 +1059,9 @@ func legacySigs(repo string) (map[string]*fsig, map[string]*legacyInfo) {
 			continue
 		}
 		key := k.pkg + ":" + k.recv + "." + k.fn
+		if k.from != "" {
+			continue // a fragment is not callable
+		}
 		sigs[key] = c.sig
 		li := &legacyInfo{errZero: true, sentOf: map[int]string{}, nsites: len(c.sites)}
 		if k.from != "" {
